@@ -53,7 +53,7 @@ REQUIRED_BRANCHES = ['ineligible_skipped', 'all_eligible', 'nmin_zero', 'conv_ye
                      'consecutive_fits', 'refit_aps_unit', 'refit_dist_unit', 'refit_av', 'refit_nmin_sel', 'refit_subset',
                      'duplicate_photometry', 'duplicate_adjacent', 'duplicate_apart',
                      'model_dir_absolute', 'model_dir_relative', 'model_dir_unnormalised',
-                     'pkg_indep', 'pkg_dep', 'pkg_cube', 'filter_by_wavelength', 'data_path', 'data_handle',
+                     'pkg_indep', 'pkg_dep', 'pkg_cube', 'pkg_cube_single_aperture', 'pkg_cube_aperture_dependent', 'filter_by_wavelength', 'data_path', 'data_handle',
                      'rw_nan', 'rw_inf', 'rw_zero_fits', 'rw_fluxes', 'rw_no_fluxes',
                      'rw_share_source_buffer', 'rw_share_same_info_keep', 'rw_share_array_inplace',
                      'form_file', 'form_obj', 'form_list',
@@ -87,7 +87,7 @@ SHARES = ['source_buffer', 'same_info_keep', 'array_inplace']
 
 # ----------------------------------------------------------------------------- generation
 
-def gen_pkg(rng, variant='indep'):
+def gen_pkg(rng, variant='indep', cube_dep=None):
     """variant: 'indep' distance-independent version-1 package (convolved files, one aperture);
     'dep' distance-dependent version-1 package (convolved files tabulated at several apertures);
     'cube' version-2 package (flux.fits) fitted at bare wavelengths (filters given as Quantity)"""
@@ -134,7 +134,7 @@ def gen_pkg(rng, variant='indep'):
         # wavelengths asked for: slightly off the cube's own (nearest-wavelength look-up)
         pkg['ask_wav'] = [float('%.4g' % (w * rng.choice([1., 1., 1.002, 0.999]))) for w in wavs]
         pkg['named'] = [rng.random() < 0.25 for _ in wavs]    # some filters by name (convolved file), the rest by wavelength
-        if rng.random() < 0.4:
+        if cube_dep or (cube_dep is None and rng.random() < 0.4):
             # aperture-dependent cube (distance-dependent fits from a version-2 package)
             pkg['ap_au'] = [1., 1e3, 3e4, 1e7]
             pkg['ap_gain'] = [round(1. + 0.3 * a + rng.uniform(0, 0.2), 2) for a in range(4)]
@@ -191,7 +191,7 @@ def gen_selector(rng, form=None, nm=4):
 
 def gen_fit_case(rng, directed=None):
     directed = directed or {}
-    pkg = gen_pkg(rng, directed.get('variant') or rng.choice(['indep', 'indep', 'dep', 'cube']))
+    pkg = gen_pkg(rng, directed.get('variant') or rng.choice(['indep', 'indep', 'dep', 'cube']), cube_dep=directed.get('cube_dep'))
     if directed.get('law_units'):
         pkg['law_units'] = list(directed['law_units'])
     nb = len(pkg['wavs'])
@@ -389,8 +389,8 @@ def gen_cases(seed, tier):
                      dict(variant='dep', n_min=2, followups=2, fu_kinds=['nmin_sel', 'subset'], all_eligible=True),
                      dict(variant='cube', n_min=2, followups=2, fu_kinds=['dist_unit', 'same'], all_eligible=True),
                      dict(variant='indep', n_min=2, dir_spelling='rel'), dict(variant='dep', n_min=2, dir_spelling='rel_dotdot', followups=1, fu_kinds=['same']),
-                     dict(variant='cube', n_min=2, dir_spelling='abs_trailing'), dict(variant='indep', n_min=3, dir_spelling='rel_trailing', data_as='handle'),
-                     dict(variant='cube', n_min=2, dir_spelling='rel_dot', conv=True), dict(variant='dep', n_min=2, dir_spelling='abs_dotdot'),
+                     dict(variant='cube', n_min=2, dir_spelling='abs_trailing', cube_dep=True), dict(variant='indep', n_min=3, dir_spelling='rel_trailing', data_as='handle'),
+                     dict(variant='cube', n_min=2, dir_spelling='rel_dot', conv=True, cube_dep=False), dict(variant='dep', n_min=2, dir_spelling='abs_dotdot'),
                      dict(variant='indep', n_min=2, n_lines=4, all_eligible=True, dup='adjacent'),
                      dict(variant='indep', n_min=2, n_lines=6, all_eligible=True, dup='apart'),
                      dict(variant='dep', n_min=2, n_lines=3, all_eligible=True, dup='adjacent', followups=1, fu_kinds=['same'])])
